@@ -95,7 +95,7 @@ struct FamilySpec {
     std::string str() const {
         std::string s = kind + ":p=" + std::to_string(chunks);
         if (kind == "density") s += ":rep=" + std::to_string(rep) + ":w=" + std::to_string(width) + ":word=" + std::to_string(word) + ":seam=" + std::to_string(seam) + (top ? ":top=" + std::to_string(top) : "");
-        else if (kind == "chunktail") s += ":rep=" + std::to_string(rep) + ":w=" + std::to_string(width) + ":word=" + std::to_string(word);
+        else if (kind == "chunktail") s += ":rep=" + std::to_string(rep) + ":w=" + std::to_string(width) + ":word=" + std::to_string(word) + (n ? ":n=" + std::to_string(n) : "");
         else if (kind == "longrun") s += ":n=" + std::to_string(n) + ":seam=" + std::to_string(seam) + ":rep=" + std::to_string(rep) + ":w=" + std::to_string(width) + ":word=" + std::to_string(word);
         else if (kind == "capacity") s += ":rep=" + std::to_string(rep) + ":n=" + std::to_string(n) + ":word=" + std::to_string(word);
         else if (kind == "span") s += ":rep=" + std::to_string(rep) + ":w=" + std::to_string(width) + ":word=" + std::to_string(word);
@@ -203,6 +203,17 @@ template<typename K> bool generate_family(const FamilySpec &f, size_t eps, std::
             for (long j = 0; j < csz; ++j) { cur += 1; keys.push_back(cur); }
             cur += 10 * csz * mult[m];
             focus.push_back(first_pos); focus.push_back(first_pos + size_t(csz) - 1);
+        }
+        // `n` further clusters far away and with another spacing: the last points of every upper level do not follow the trend of
+        // the points before them, and the number of points per level is not a multiple of the chunk count
+        if (f.n > 0) {
+            cur += W(1) << 28;
+            for (long c = 0; c < f.n; ++c) {
+                size_t first_pos = keys.size();
+                for (long j = 0; j < csz; ++j) { cur += 1; keys.push_back(cur); }
+                cur += 1000 * csz * (c + 1);
+                focus.push_back(first_pos); focus.push_back(first_pos + size_t(csz) - 1);
+            }
         }
         if (cur > hi) return false;
     } else if (f.kind == "density") {
